@@ -35,6 +35,7 @@
 #include <unifex/then.hpp>
 #include <unifex/type_traits.hpp>
 #include <unifex/v2/async_scope.hpp>
+#include <unifex/detail/verif_hooks.hpp>
 
 #include <algorithm>
 #include <atomic>
@@ -68,12 +69,14 @@ struct _attach_op_base<Receiver>::type {
 
   void construct_stop_callbacks() noexcept {
     stokenCallback_.construct(stoken_, stop_callback{this});
+    UNIFEX_VERIF_YIELD("scope.at_cb2");
     receiverCallback_.construct(get_stop_token(receiver_), stop_callback{this});
   }
 
   void request_stop() noexcept {
     // try to increment the refcount from 1 to 2
     std::size_t expected{1};
+    UNIFEX_VERIF_YIELD("scope.at_cas");
     if (!refcount_.compare_exchange_strong(
             expected, 2, std::memory_order_relaxed)) {
       // we didn't get to increment from one to two so either the count was
@@ -85,6 +88,7 @@ struct _attach_op_base<Receiver>::type {
       return;
     }
 
+    UNIFEX_VERIF_YIELD("scope.at_stop");
     stopSource_.request_stop();
 
     if (auto receiver = try_complete()) {
@@ -94,6 +98,7 @@ struct _attach_op_base<Receiver>::type {
 
   Receiver* try_complete() noexcept {
     // decrement refcount and check the old count
+    UNIFEX_VERIF_YIELD("scope.at_fsub");
     if (refcount_.fetch_sub(1, std::memory_order_acq_rel) == 1) {
       // the old count was one so we've won the race to be the completer
       receiverCallback_.destruct();
@@ -201,6 +206,7 @@ struct _attach_op<Sender, Receiver>::type final
 
   friend void tag_invoke(tag_t<start>, type& op) noexcept {
     op.construct_stop_callbacks();
+    UNIFEX_VERIF_YIELD("scope.at_start");
     unifex::start(op.op_);
   }
 
@@ -425,6 +431,7 @@ struct async_scope {
    */
   void request_stop() noexcept {
     scope_.end_scope();
+    UNIFEX_VERIF_YIELD("scope.v1_rs");
     stopSource_.request_stop();
   }
 
